@@ -7,10 +7,12 @@ concrete operations.  An operation whose precondition does not hold in the model
 """
 from __future__ import annotations
 
+import gc
 import os
 import shutil
 from collections import Counter
 
+from simkit import journal
 from simkit.trace import Trace
 
 from . import store_gen as G
@@ -69,6 +71,9 @@ CODE_PROPS = {
     'mfault.false_complete': ['C10'],
     'mfault.retry_failed': ['C10'],
     'mfault.swallowed': ['C10'],
+    # the process died from a signal inside an operation (reported for the property whose
+    # check was running; see simkit.cli)
+    'native.crash': [],
 }
 # identifier-consistency rejections are shared between C08 and C10
 ID_KINDS = ('id_on_unidentified', 'noid_on_identified')
@@ -238,6 +243,7 @@ class StoreSim:
         fn = getattr(self, 'op_' + op['op'])
         rec = dict(op)
         rec.pop('res', None)
+        journal.log(rec)
         try:
             res = fn(rec)
         except OracleFailure as of:
@@ -248,6 +254,7 @@ class StoreSim:
         rec['res'] = res
         self.clock += 1.0 + (self.step_no % 7) * 0.25
         self.ops_done.append(rec)
+        gc.collect()  # deterministic collection point (automatic collection is off)
         self.trace.log(self.step_no, {k: v for k, v in rec.items() if k != 'traj'},
                        rec.get('traj', {}).get('cs') if isinstance(rec.get('traj'), dict) else None)
         self._check_len_all()
@@ -395,6 +402,9 @@ class StoreSim:
         idx = op['idx']
         rows = self._rows(sess)
         served = self._served_from(sess, idx)
+        if os.environ.get('VERIF_SELFTEST_CRASH') == 'get3' and idx == 3 and sess.kind == 'append':
+            import signal  # self-test of the native-crash plumbing only
+            os.kill(os.getpid(), signal.SIGSEGV)
         if idx >= len(rows):
             try:
                 sess.store[idx]
